@@ -200,7 +200,8 @@ class Gen:
         base = r.wpick([(3, "v-show"), (3, "v-custom"), (2, "vCus"), (2, "vFooBar"), (3, "v-model"), (1, "vModel"),
                         (2, "v-html"), (2, "v-text"), (2, "v-slots"), (1, "v-models"), (1, "v--x"), (1, "vvX"), (1, "vHtml"),
                         (2, "v-validate"), (1, "v-v-x"), (1, "vVisible"), (1, "v-vv"), (1, "v-Show"), (1, "vShow"),
-                        (1, "vXAxis"), (1, "v-BToggle"), (1, "vUIState"), (1, "vHTML"), (1, "v-MODEL")])
+                        (1, "vXAxis"), (1, "v-BToggle"), (1, "vUIState"), (1, "vHTML"), (1, "v-MODEL"),
+                        (1, "v-\u6743\u9650"), (1, "v-\u00e9ditable"), (1, "v\u00c9tat")])
         self.f("dir:" + base)
         name = base
         heavy = getattr(self, "dir_heavy", False)
@@ -695,6 +696,11 @@ def gen_matrix_cases(start_id=0):
             for ch in ["{foo}", "{fn()}", "", "{}", "{/* c */}", " \n ", "{a}{b}", "t"]:
                 add("<%s v-slots={%s}>%s</%s>" % (host, vs, ch, host), k); k += 1
         add("<%s v-slots={{ a: () => 1 }} />" % host, k); k += 1
+    # directive names, arguments and modifiers outside ASCII
+    for name in ["v-\u6743\u9650", "v-\u6743\u9650:\u83dc\u5355_\u4e25\u683c", "v-\u00e9ditable", "v-custom:\u00e9_\u00fc", "v-\u00df_m"]:
+        for host in ["button", "Comp"]:
+            add("<%s %s={val} />" % (host, name), k); k += 1
+            add("<%s %s />" % (host, name), k); k += 1
     # directive modifiers that are not identifiers
     for name in ["v-custom_2xl", "vCus_300ms_lazy", "v-show_05", "v-custom:arg_1st", "v-model_2dp", "v-custom_500"]:
         for host in ["input", "Comp"]:
@@ -1147,7 +1153,9 @@ class TGen(Gen):
         self.f("prov:" + prov)
         head = {"named": "import { defineComponent, SetupContext } from 'vue';", "aliased": "import { defineComponent as dc, SetupContext } from 'vue';",
                 "namespace": "import * as Vue from 'vue'; import { SetupContext } from 'vue';", "local": "function defineComponent(...a: any[]) { return a }",
-                "shadow": "import { defineComponent, SetupContext } from 'vue';", "other": "import { defineComponent } from './vue';",
+                "shadow": "import { defineComponent, SetupContext } from 'vue';",
+                # another module's export, also under names that merely resemble 'vue'
+                "other": "import { defineComponent } from '%s';" % r.pick(["./vue", "vue-demi", "vue/dist/vue.esm-bundler.js", "@vue/runtime-core", "vuex", "Vue", "vue2-helpers", " vue"]),
                 "none": "import { h } from 'vue';",
                 # Vue's defineComponent is imported under another name; the binding CALLED defineComponent is not Vue's
                 "alias+other": "import { defineComponent as defineVueComponent, SetupContext } from 'vue'; import { defineComponent } from './framework';",
